@@ -240,7 +240,7 @@ def doQuery (c : Cfg) (s : Sess) (sl : Slice) (db : Str) (stmtType : Nat) (sql :
           .ok (.conn n f')
     else if otherWithoutPlan.contains stmtType then .ok .unmodelled
     else
-      match preDecide true { rules := [], phyDBs := [(db, db)] } db stmtType sql tokens with
+      match preDecide .cur { rules := [], phyDBs := [(db, db)] } db stmtType sql tokens with
       | .no => .ok .unmodelled
       | .unshard _ =>
         let f := checkExecuteFromSlave c stmtType tokens sql
@@ -275,7 +275,7 @@ def doQueryFrom (f0 : Bool) (c : Cfg) (s : Sess) (sl : Slice) (db : Str) (stmtTy
           .ok (.conn n f')
     else if otherWithoutPlan.contains stmtType then .ok .unmodelled
     else
-      match preDecide true { rules := [], phyDBs := [(db, db)] } db stmtType sql tokens with
+      match preDecide .cur { rules := [], phyDBs := [(db, db)] } db stmtType sql tokens with
       | .no => .ok .unmodelled
       | .unshard _ =>
         let f := checkExecuteFromSlave c stmtType tokens sql
